@@ -53,3 +53,10 @@ Definition as_list2 (v:val) : option (list (list Z)) :=
   match v with VL l => all_some (map as_list l) | _ => None end.
 Definition as_vals (v:val) : option (list val) :=
   match v with VL l => Some l | _ => None end.
+
+(* big-integer wire helpers used by ocaml/driver.ml for numbers beyond 62 bits *)
+Definition z_push_digit (z d:Z) : Z := z * 10 + d.
+Definition z_pop_digit (z:Z) : Z * Z := (z / 10, z mod 10).
+Definition z_is_zero (z:Z) : bool := z =? 0.
+Definition z_neg (z:Z) : Z := - z.
+Definition z_is_neg (z:Z) : bool := z <? 0.
